@@ -133,7 +133,8 @@ func checkCmd(args []string) int {
 		// with that much margin are claimed, so that a loaded machine does not turn a proof into an alarm
 		opt = solveOpts{quickMs: 1200, retryMs: 2000, portfolio: true}
 	}
-	res := verifyAll(w, spec, w.funcs, opt, 16, nil)
+	fns := relevantFuncs(w, spec, *prop)
+	res := verifyAll(w, spec, fns, opt, 16, nil)
 	extra := extraObligations(w, spec, *prop, opt)
 	run := &checkRun{prop: *prop, tier: *tier, seed: seed, root: root, w: w, spec: spec, res: res, extra: extra, t0: t0}
 	if *writeBase {
@@ -622,3 +623,93 @@ func (r *checkRun) writeEvidence(out string, obs []*Oblig, nob, discharged int, 
 }
 
 var _ = ssa.Function{}
+
+func contractHasTag(ct *Contract, prop string, requiresOnly bool) bool {
+	if ct == nil {
+		return false
+	}
+	has := func(cs []Clause) bool {
+		for _, c := range cs {
+			for _, t := range c.Tags {
+				if t == prop {
+					return true
+				}
+			}
+		}
+		return false
+	}
+	if has(ct.Requires) {
+		return true
+	}
+	if requiresOnly {
+		return false
+	}
+	if has(ct.Ensures) {
+		return true
+	}
+	for _, cs := range ct.LoopInv {
+		if has(cs) {
+			return true
+		}
+	}
+	for _, cs := range ct.IterEns {
+		if has(cs) {
+			return true
+		}
+	}
+	for _, sc := range ct.Asserts {
+		if has([]Clause{sc.Clause}) {
+			return true
+		}
+	}
+	return false
+}
+
+// relevantFuncs: the functions that carry obligations of a property. The global families (SAFE, FRAME) need
+// every function; properties decided by tagged contract clauses need the functions under such a contract and
+// the callers that must establish a tagged precondition.
+func relevantFuncs(w *World, spec *Specs, prop string) []*ssa.Function {
+	switch prop {
+	case "C01", "C03", "C04", "C05":
+		return w.funcs
+	}
+	e := newEnc(w, w.funcs[0], spec)
+	var out []*ssa.Function
+	for _, f := range w.funcs {
+		rel := false
+		if prop == "C17" && isCopyMethod(w, f) {
+			rel = true
+		}
+		if contractHasTag(spec.contractFor(f), prop, false) {
+			rel = true
+		}
+		e.top = f
+		if !rel && contractHasTag(e.ifaceContractFor(f), prop, false) {
+			rel = true
+		}
+		if !rel {
+			for _, b := range f.Blocks {
+				for _, in := range b.Instrs {
+					c, ok := in.(*ssa.Call)
+					if !ok {
+						continue
+					}
+					cc := c.Common()
+					if cc.IsInvoke() {
+						if contractHasTag(spec.ifaceContract(cc.Value.Type(), cc.Method.Name()), prop, true) {
+							rel = true
+						}
+					} else if callee := cc.StaticCallee(); callee != nil {
+						if contractHasTag(spec.contractFor(callee), prop, true) || (w.mine[pkgOf(callee)] && contractHasTag(e.ifaceContractFor(callee), prop, true)) {
+							rel = true
+						}
+					}
+				}
+			}
+		}
+		if rel {
+			out = append(out, f)
+		}
+	}
+	return out
+}
